@@ -61,6 +61,8 @@ var ErrInjected = errors.New("vfile: injected I/O fault")
 type Fault struct {
 	Nth     int
 	Partial int
+	// EOF makes a faulted ReadAt return io.EOF (a short read at "end of file") instead of the injected error.
+	EOF bool
 	// results
 	Fired     bool
 	FiredKind Kind
@@ -300,6 +302,9 @@ func (f *File) ReadAt(p []byte, off int64) (int, error) {
 		}
 		c.Err = true
 		f.record(c)
+		if f.fault != nil && f.fault.EOF {
+			return c.N, io.EOF
+		}
 		return c.N, ErrInjected
 	}
 	if off < 0 || off > int64(len(f.data)) {
